@@ -329,6 +329,15 @@ func (w *World) streamScript(a *Actor, st drpc.Stream, k int, side byte, sub int
 		case "recv":
 			err := recvOne()
 			a.logf("recv -> %v", err)
+		case "recvbad": // a receive whose encoding rejects the (intact) message
+			var b []byte
+			r := w.beginOp(a, "recvbad", k)
+			err := st.MsgRecv(&b, FailEnc{Msg: "harness: cannot decode"})
+			w.endOp(r, err)
+			a.logf("recvbad -> %v", err)
+			if side == 's' && err != nil {
+				return err, true // a handler that cannot decode its input fails with that error
+			}
 		case "drain":
 			n := 0
 			for {
